@@ -440,6 +440,15 @@ impl Typer
 			x = ValueType::Pointer {
 				deref_type: Box::new(x),
 			};
+			if !x.is_wellformed()
+			{
+				// The address of something that has none, such as a view.
+				let error = Error::IllegalType {
+					value_type: x,
+					location: reference.location.clone(),
+				};
+				return Some(Err(Poison::Error(error)));
+			}
 		}
 		match &x
 		{
@@ -1787,6 +1796,23 @@ impl Analyzable for Expression
 					Ok(()) =>
 					{
 						let element_type = typer.get_symbol(&name.inferred());
+						// The elements might be something that cannot be stored,
+						// such as the values of a function that returns nothing.
+						if let Some(Ok(element_type)) = &element_type
+						{
+							let array_type = ValueType::Array {
+								element_type: Box::new(element_type.clone()),
+								length: array.elements.len(),
+							};
+							if !array_type.is_wellformed()
+							{
+								let error = Error::IllegalType {
+									value_type: array_type,
+									location: name.location.clone(),
+								};
+								return Expression::Poison(Poison::Error(error));
+							}
+						}
 						Expression::ArrayLiteral {
 							array,
 							element_type,
